@@ -220,9 +220,9 @@ struct Gen<'a> {
     headroom: bool,
 }
 
-const I32X: [i64; 26] = [
-    i32::MIN as i64, i32::MIN as i64 + 1, -262_145, -262_144, -262_143, -262_142, -10_000, -9999, -401, -400, -100, -1, 0, 1, 4, 100, 400, 1970, 2000, 9999, 10_000, 262_141, 262_142, 262_143,
-    i32::MAX as i64 - 1, i32::MAX as i64,
+const I32X: [i64; 32] = [
+    i32::MIN as i64, i32::MIN as i64 + 1, -262_145, -262_144, -262_143, -262_142, -86_401, -86_400, -86_399, -10_000, -9999, -401, -400, -100, -1, 0, 1, 4, 100, 400, 1970, 2000, 9999, 10_000,
+    86_399, 86_400, 86_401, 262_141, 262_142, 262_143, i32::MAX as i64 - 1, i32::MAX as i64,
 ];
 const U32X: [i64; 32] = [
     0, 1, 2, 6, 7, 11, 12, 13, 23, 24, 28, 29, 30, 31, 32, 52, 53, 54, 59, 60, 61, 365, 366, 367, 999, 1000, 86_399, 86_400, 999_999_999, 1_000_000_000, i32::MAX as i64, u32::MAX as i64,
@@ -1138,7 +1138,7 @@ pub fn run(ctx: &Ctx) -> Outcome {
     }
     rep.finish(
         ctx,
-        "a table of the public fallible entry points (constructors, with_*, checked_*, try_*, from_timestamp*, FromStr, parse_from_*, parse_and_remainder, Parsed set_*/to_*, DurationRound, SubsecRound, to_rfc3339[_opts], StrftimeItems parse, format through write!/write_to, serde text forms) is driven with arguments drawn from integer-type extremes, range ends ±1 and random values, receivers from {MIN, MAX, MIN/MAX_UTC with ±23:59:59 offsets (wall clock in the headroom), leap seconds, epoch, random}; the main constructors additionally get the full cross product of a 26-value i32 catalogue and a 32-value u32 catalogue; format strings: every 2- and 3-byte combination of '%' with printable ASCII, truncated specifiers, multi-byte text, random strings up to 4 KiB, each iterated under a step bound of 8*len+16 items and used for formatting and parsing. Every call runs under the panic monitor, every returned value under the validity monitor, every call under a 20 s hang watchdog. Non-trivial: calls that involve an extreme argument, a range-end receiver, a leap second or a headroom wall clock; distinct = distinct (entry, argument list)",
+        "a table of the public fallible entry points (constructors, with_*, checked_*, try_*, from_timestamp*, FromStr, parse_from_*, parse_and_remainder, Parsed set_*/to_*, DurationRound, SubsecRound, to_rfc3339[_opts], StrftimeItems parse, format through write!/write_to, serde text forms) is driven with arguments drawn from integer-type extremes, range ends ±1 and random values, receivers from {MIN, MAX, MIN/MAX_UTC with ±23:59:59 offsets (wall clock in the headroom), leap seconds, epoch, random}; the main constructors additionally get the full cross product of a 32-value i32 catalogue and a 32-value u32 catalogue; format strings: every 2- and 3-byte combination of '%' with printable ASCII, truncated specifiers, multi-byte text, random strings up to 4 KiB, each iterated under a step bound of 8*len+16 items and used for formatting and parsing. Every call runs under the panic monitor, every returned value under the validity monitor, every call under a 20 s hang watchdog. Non-trivial: calls that involve an extreme argument, a range-end receiver, a leap second or a headroom wall clock; distinct = distinct (entry, argument list)",
         &["the allow-list of documented panic sites is: SubsecRound::round_subsecs when the carry leaves the range (uses the documented-to-panic `+`)", "operators and deprecated panicking constructors are not in the table"],
     )
 }
